@@ -3760,17 +3760,8 @@ func lenConst(n *node) {
 
 func _len(n *node) {
 	dest := genValueOutput(n, reflect.TypeOf(int(0)))
+	// A pointer to an array is not dereferenced (it may be nil): reflect gets the length from its type.
 	value := genValue(n.child[1])
-	if isPtr(n.child[1].typ) {
-		val := value
-		value = func(f *frame) reflect.Value {
-			v := val(f).Elem()
-			for v.Kind() == reflect.Ptr {
-				v = v.Elem()
-			}
-			return v
-		}
-	}
 	next := getExec(n.tnext)
 
 	if wantEmptyInterface(n) {
